@@ -222,6 +222,18 @@ func main() {
 				if cold > 0 {
 					run.Violate("allocates-alone|"+c.RoutesString()+"|"+q.String(), fmt.Sprintf("routing a matching request allocates %.2f objects per request on a router that serves only this request (after 5 warm-up requests; handler uses CloneWith+Close: %t)\nroutes in registration order: %v\nrequest: %s\nmatched: %s (slash-adjusted=%t)", cold, cloning, order, q, rte.Pattern(), tsr), c)
 				}
+				// reverse lookups (Router.Reverse, Iter.Reverse, a read transaction's Reverse) run between the requests and borrow
+				// pooled contexts too: the requests still allocate nothing
+				if measured%4 == 2 {
+					mix := testing.AllocsPerRun(50, func() {
+						_, _ = f2.Reverse(req.Method, req.Host, req.URL.Path)
+						f2.ServeHTTP(w, req)
+					})
+					run.Count("measured_with_reverse_lookups_in_between", 1)
+					if mix > 0 {
+						run.Violate("allocates-after-reverse|"+c.RoutesString()+"|"+q.String(), fmt.Sprintf("a matching request preceded by Router.Reverse for the same target allocates %.2f objects per pair (each alone allocates nothing)\nroutes: %v\nrequest: %s", mix, order, q), c)
+					}
+				}
 				// Lookup + Close is the same routing step without the handler
 				look := testing.AllocsPerRun(50, func() {
 					if _, cc, _ := f2.Lookup(nil, req); cc != nil {
@@ -248,6 +260,7 @@ func main() {
 	}
 	run.Count("measured_requests", int64(measured))
 	deepHosts(run, w)
+	slashSites(run, w)
 }
 
 // deepHosts: hostnames of many labels, every label also reachable through a {param} sibling whose continuation does
@@ -297,4 +310,70 @@ func deepHosts(run *kit.Run, w *nullW) {
 			}
 		}
 	}
+}
+
+// slashSites: every place where the matcher records a trailing-slash opportunity is reached by some small route set.
+// All sets of one or two patterns of a slash-focused pool, with trailing slashes ignored, x all paths of up to three
+// segments over four values (with, without and with a doubled-free extra slash): every request that is served is
+// measured.
+func slashSites(run *kit.Run, w *nullW) {
+	pool := []string{"/{p0}", "/{p0}/", "/{p0}/{p1}", "/{p0}/{p1}/", "/{p0}/v", "/{p0}/v{p1}", "/a", "/a/", "/a/{p1}", "/a/{p1}/", "/a/*{c1}", "/a{p0}", "/a{p0}/", "/ab", "/a/b", "/a/b/", "/*{c0}/b/", "/a/*{c1}/x/", "/{p0}/*{c1}", "/{p0}/v/"}
+	vals := []string{"a", "b", "v", "vx"}
+	var paths []string
+	var rec func(prefix string, d int)
+	rec = func(prefix string, d int) {
+		if d > 0 {
+			paths = append(paths, prefix, prefix+"/")
+		}
+		if d == 3 {
+			return
+		}
+		for _, v := range vals {
+			rec(prefix+"/"+v, d+1)
+		}
+	}
+	rec("", 0)
+	measured := 0
+	for i := 0; i < len(pool); i++ {
+		for j := i; j < len(pool); j++ {
+			f, err := fox.New(fox.WithIgnoreTrailingSlash(true))
+			if err != nil {
+				run.Inconclusive("fox.New: %v", err)
+				return
+			}
+			hit := 0
+			h := func(c fox.Context) { hit++ }
+			set := []string{pool[i]}
+			if j != i {
+				set = append(set, pool[j])
+			}
+			ok := true
+			for _, p := range set {
+				if _, err := f.Handle("GET", p, h); err != nil {
+					ok = false
+				}
+			}
+			if !ok {
+				continue
+			}
+			for _, p := range paths {
+				req := &http.Request{Method: "GET", URL: &url.URL{Path: p}, Header: http.Header{}}
+				hit = 0
+				f.ServeHTTP(w, req)
+				if hit == 0 {
+					continue
+				}
+				for k := 0; k < 3; k++ {
+					f.ServeHTTP(w, req)
+				}
+				allocs := testing.AllocsPerRun(20, func() { f.ServeHTTP(w, req) })
+				measured++
+				if allocs > 0 {
+					run.Violate(fmt.Sprintf("allocates-slash-site|%v|%s", set, p), fmt.Sprintf("routing a served request allocates %.2f objects per request (trailing slashes ignored)\nroutes: %v\nrequest: GET %s", allocs, set, p), nil)
+				}
+			}
+			run.Case(fmt.Sprintf("slash-sites|%v", set), true)
+		}
+	}
+	run.Count("measured_small_slash_sets", int64(measured))
 }
